@@ -80,6 +80,14 @@ func implConcurrent(cs Case) ImplResult {
 		want[i] = b.Bytes()
 	}
 	shared := c.Build()
+	// half of the cases: the shared instance (and the process) first sees a few conversions into FAILING writers - error
+	// paths that put pooled / cached state back in a bad shape only show under the concurrency that follows
+	if seed%2 == 0 {
+		for k := 0; k < 6; k++ {
+			_ = shared.Convert(docs[k%len(docs)], failingWriter{after: int(seed>>8)%3 * 2048})
+			_ = ref.Convert(docs[k%len(docs)], failingWriter{after: 0})
+		}
+	}
 	const N = 8
 	var wg sync.WaitGroup
 	start := make(chan struct{})
@@ -123,3 +131,15 @@ func implConcurrent(cs Case) ImplResult {
 	wg.Wait()
 	return ImplResult{Out: "ok", NoModel: true, Fails: fails, Key: cs.Args[0] + "|" + cs.Op + "|" + cs.Args[1]}
 }
+
+// failingWriter accepts `after` bytes in total per call and then fails (a short write with an error)
+type failingWriter struct{ after int }
+
+func (w failingWriter) Write(p []byte) (int, error) {
+	if len(p) <= w.after {
+		return len(p), nil
+	}
+	return w.after, errWriterFailed
+}
+
+var errWriterFailed = fmt.Errorf("verif: destination failed")
